@@ -8,8 +8,8 @@ ID = 'C19'
 RULE = ('cases: connected graphs with >=1 edge: paths, stars, cycles, fused rings (ladders), random connected '
         'graphs up to 40 nodes (12 % long chains / ladders / trees of 50-130 nodes), and resolved molecules with hydrogens (incl. molecules with ez_isomer annotations '
         'from slash marks); default_bond drawn from [0.1, 10]; each graph is laid out as is and as a consistently '
-        'relabelled copy (integer keys -> string keys or shifted integers, annotations relabelled too); numpy '
-        'seed drawn. Oracle: set(pos) == set(G), every position a finite ndarray of shape (2,), no two bonded '
+        'relabelled copy (integer keys -> string keys or shifted integers, annotations relabelled too); optionally '
+        'align_with; numpy seed drawn. Oracle: set(pos) == set(G), every position a finite ndarray of shape (2,), no two bonded '
         'nodes coincide (distance > 1e-9 x bond), |mean bond length - default_bond| <= 1e-7 x default_bond, for '
         'the graph and for its relabelled copy. non-trivial = >=3 nodes and a ring or a branch; distinct = graph + '
         'bond length')
@@ -66,8 +66,11 @@ def gen(R, tier):
             # bond orders as on coarse graphs, including order-0 ('.') edges: every edge counts for the scale
             spec['orders'] = [R.choice([0, 0, 1, 2, 3]) for _ in edges]
     spec['relabel'] = R.choice(['str', 'shift', 'reverse'])
+    if R.chance(0.3):
+        # documented option: rotate the layout so that its longest axis is aligned with a vector
+        spec['align_with'] = R.choice([[1, 0], [0, 1], [1, 1], [-1, 2]])
     return dict(input=spec, bond=round(R.choice([R.uniform(0.1, 1.0), 1.0, R.uniform(1.0, 10.0)]), 4),
-                np_seed=R.randint(0, 2 ** 31 - 1), features=['kind:' + kind, 'relabel:' + spec['relabel']] + (['edge_orders_incl_0'] if spec.get('orders') else []) + (['nodes>=50'] if spec.get('n', 0) >= 50 else []))
+                np_seed=R.randint(0, 2 ** 31 - 1), features=['kind:' + kind, 'relabel:' + spec['relabel']] + (['edge_orders_incl_0'] if spec.get('orders') else []) + (['align_with'] if spec.get('align_with') else []) + (['nodes>=50'] if spec.get('n', 0) >= 50 else []))
 
 
 def build(spec):
@@ -131,9 +134,12 @@ def oracle(case):
     if g.number_of_edges() == 0 or not nx.is_connected(g):
         return
     np.random.seed(case['np_seed'])
-    pos = sut(vespr_layout, g, default_bond=case['bond'])
+    kw = {}
+    if case['input'].get('align_with'):
+        kw['align_with'] = np.array(case['input']['align_with'], dtype=float)
+    pos = sut(vespr_layout, g, default_bond=case['bond'], **kw)
     check_layout(g, pos, case['bond'], 'original labels')
     h = relabel(g, case['input']['relabel'])
     np.random.seed(case['np_seed'])
-    pos2 = sut(vespr_layout, h, default_bond=case['bond'])
+    pos2 = sut(vespr_layout, h, default_bond=case['bond'], **kw)
     check_layout(h, pos2, case['bond'], 'relabelled (%s)' % case['input']['relabel'])
